@@ -72,6 +72,8 @@ fn main() {
         let _ = std::fs::remove_dir_all(format!("{}.replay", outdir));
         std::process::exit(if out.oracle_fails > 0 { 1 } else { 0 });
     }
+    // `arena-map` etc.: the same generators, but raw arena snapshots for the arena-level model
+    let suite = if let Some(base) = suite.strip_prefix("arena-") { std::env::set_var("VERIF_ARENA", "1"); base } else { suite };
     let mut out = Out::new(outdir);
     let mut rng = Rng::new(seed);
     let mut extra: Vec<(String, String)> = Vec::new();
